@@ -11,7 +11,7 @@ from typing import Callable
 
 import onnx  # ruff: ignore[banned-api]
 
-from onnx_ir import _core, _protocols, serde
+from onnx_ir import _core, _enums, _protocols, serde
 from onnx_ir import external_data as _external_data
 from onnx_ir._polyfill import zip
 
@@ -41,6 +41,26 @@ def load(path: str | os.PathLike, format: str | None = None) -> _core.Model:
     # control-flow bodies): they are relative to the same file
     for function in model.functions.values():
         _external_data.set_base_dir(function.graph, base_dir)
+        # ... and so can the default values of the function's attributes
+        for attr in function.attributes.values():
+            if attr.is_ref() or attr.value is None:
+                continue
+            if attr.type == _enums.AttributeType.TENSOR:
+                tensors = [attr.value]
+            elif attr.type == _enums.AttributeType.TENSORS:
+                tensors = list(attr.value)
+            elif attr.type == _enums.AttributeType.GRAPH:
+                _external_data.set_base_dir(attr.value, base_dir)
+                continue
+            elif attr.type == _enums.AttributeType.GRAPHS:
+                for graph in attr.value:
+                    _external_data.set_base_dir(graph, base_dir)
+                continue
+            else:
+                continue
+            for tensor in tensors:
+                if isinstance(tensor, _core.ExternalTensor):
+                    tensor.base_dir = base_dir
     return model
 
 
